@@ -87,25 +87,82 @@ def generate(rng, tier="quick"):
         src, dst = rng.choice(order)
         steps.append({"op": "recover", "n": dst})
         steps.append({"op": "deliver", "src": src, "dst": dst})
-    return {"property": PROP, "config": cfg, "steps": steps}
+    intent = None
+    if not procs and rng.random() < 0.15:
+        # a busy process: a second honest exchange (same or other flavour, own password and identities, same
+        # parameter-set object) runs concurrently in the same process, its calls interleaved with the first
+        cfg2 = gen.gen_base_config(rng, flavour=rng.choice([None, "AB", "AB", "S"]), mix=[("small", 1)])
+        same_pw = rng.random() < 0.3
+        for nd in cfg2["nodes"]:
+            nd["pset"] = 0
+            nd["entropy"] = gen.gen_entropy(rng, cfg["psets"][0]["group"], 0.2)
+            if same_pw:
+                nd["pw"] = cfg["nodes"][0]["pw"]
+        cfg["nodes"] += cfg2["nodes"]
+        lanes2 = gen.interleave(rng, [gen.gen_lifecycle(rng, 2, 2, 0.3), gen.gen_lifecycle(rng, 3, 2, 0.3)])
+        order2 = [(3, 2), (2, 3)]
+        rng.shuffle(order2)
+        lanes2 += [{"op": "deliver", "src": s_, "dst": d_} for s_, d_ in order2]
+        steps = gen.interleave(rng, [steps, lanes2])
+        intent = {"pairs": 2}
+    elif not procs and rng.random() < 0.12:
+        # fault: a library call is aborted at an arbitrary instant (allocation failure, signal) and the
+        # application falls back on what is durable: it persists before the call, and after the
+        # aborted call drops the instance, restores it and calls again
+        steps = inject_aborted_calls(rng, steps)
+        intent = {"aborted_calls": True}
+    scn = {"property": PROP, "config": cfg, "steps": steps}
+    if intent:
+        scn["intent"] = intent
+    return scn
+
+
+def inject_aborted_calls(rng, steps, nodes=(0, 1), p=0.5):
+    out = []
+    started = set()
+    for st in steps:
+        n = st.get("n", st.get("dst"))
+        op = st["op"]
+        if n in nodes and n in started and op in ("deliver", "persist", "recover") and rng.random() < p:
+            bad = dict(st, interrupt=gen.gen_interrupt(rng))
+            if op == "deliver":
+                out += [{"op": "persist", "n": n}, bad, {"op": "crash", "n": n}, {"op": "recover", "n": n}]
+            elif op == "persist":
+                out += [bad]                       # the application simply tries again
+            else:
+                out += [bad]
+        if op == "start":
+            started.add(n)
+        out.append(st)
+    return out
 
 
 class Oracle(Hooks):
     prop = PROP
 
     def finish(self, w):
-        a, b = w.nodes[0], w.nodes[1]
+        self._judge(w, w.nodes[0], w.nodes[1])
+        if (w.scn.get("intent") or {}).get("pairs") == 2 and len(w.nodes) >= 4:
+            w.probe("concurrent-pairs")
+            self._judge(w, w.nodes[2], w.nodes[3])
+
+    def _judge(self, w, a, b):
+        pair = (a.idx, b.idx)
+        events = [e for e in w.events if e["n"] in pair]
         fam = group_family(w)
         gk = group_kind(w)
         for n in (a, b):
             if n.booted and n.out is None and not n.lost and n.entropy.mode != "fail":
-                started = [c for c in w.events if c["op"] == "start" and c["n"] == n.idx]
+                started = [c for c in events if c["op"] == "start" and c["n"] == n.idx]
                 if started and started[0]["out"].startswith("exc"):
                     self.flag(w, "start-failed", "honest start() raised %s" % started[0]["out"],
                               group=gk, cls=n.cls, exc=started[0]["out"])
         # "...also when either end was persisted with serialize() and revived with
         # from_serialized() in between": an honest persist or restore must not fail
-        for e in w.events:
+        for e in events:
+            if e.get("interrupted"):
+                w.probe("aborted-call:" + e["intr"]["api"])
+                continue                # a call the simulator aborted: its outcome is not the library's
             if e["op"] in ("recover", "persist") and e["out"].startswith("exc:"):
                 n = w.nodes[e["n"]]
                 if e["op"] == "persist" and n.out is None:
@@ -116,7 +173,7 @@ class Oracle(Hooks):
                           group=gk, cls=n.cls, op=e["op"], exc=e["out"][4:])
                 return
         # every key ever returned in this exchange must be the same 32 bytes
-        keys = [(e["n"], e["key"]) for e in w.events if e["op"] == "deliver" and e["out"] == "key"]
+        keys = [(e["n"], e["key"]) for e in events if e["op"] == "deliver" and e["out"] == "key" and not e.get("interrupted")]
         for n, k in keys:
             if not isinstance(k, bytes) or len(k) != 32:
                 self.flag(w, "key-shape", "finish() returned %r" % (k,), group=gk)
@@ -128,15 +185,15 @@ class Oracle(Hooks):
             w.probe("agreed" if len(keys) >= 2 else "one-key")
         # exceptions: only the two degenerate coincidences are allowed
         ident = identity_bytes(w)
-        for e in w.events:
-            if e["op"] != "deliver" or not e["out"].startswith("exc"):
+        for e in events:
+            if e["op"] != "deliver" or not e["out"].startswith("exc") or e.get("interrupted"):
                 continue
             dst = w.nodes[e["n"]]
             exc = e["out"][4:]
             if exc == "OnlyCallFinishOnce" and any(x["i"] < e["i"] and x["op"] == "deliver" and x["n"] == e["n"]
-                                                   and x["out"] != "skip" for x in w.events):
+                                                   and x["out"] != "skip" for x in events):
                 continue            # duplicate delivery to a finished instance
-            src = w.nodes[1 - dst.idx]
+            src = b if dst is a else a
             if exc == "ReflectionThwarted" and body_of(a.out) == body_of(b.out):
                 w.probe("equal-blinded-elements")
                 continue
